@@ -941,6 +941,8 @@ def nf(n, leaf=None):
         return nf(n['inner'][0], leaf) if n.get('inner') else '?'
     if k == 'ConditionalOperator':
         c, a, b = n['inner'][:3]
+        if int_value(a) == 1 and int_value(b) == 0 and dtype(strip(c)) == 'bool':
+            return nf(c, leaf)     # (flag ? 1 : 0) is the flag
         return '(%s ? %s : %s)' % (nf(c, leaf), nf(a, leaf), nf(b, leaf))
     if k == 'CXXMemberCallExpr':
         m = strip(n['inner'][0])
@@ -954,9 +956,73 @@ def nf(n, leaf=None):
         return s
     if k == 'ArraySubscriptExpr':
         return '%s[%s]' % (nf(n['inner'][0], leaf), nf(n['inner'][1], leaf))
+    if k in ('CXXConstructExpr', 'CXXFunctionalCastExpr', 'CXXTemporaryObjectExpr'):
+        args = [a for a in kids(n) if a.get('kind') != 'CXXDefaultArgExpr']
+        if len(args) == 1:
+            return nf(args[0], leaf)   # converting construction (uint32_t -> le_uint32_t, const char* -> std::string)
     s = canon(n)
     if leaf:
         r = leaf(s)
         if r is not None:
             return r
     return s
+
+
+def prod_form(n, env=None, leaf=None):
+    """(constant, sorted symbolic factors) of a product expression.  env maps a
+    canonical leaf string (e.g. 'this.width') to an int or to an AST node that is
+    substituted for it; sums whose terms all fold become constants."""
+    env = env or {}
+    n = strip(n)
+    if n is None:
+        return (1, ['?'])
+    c = canon(n)
+    if c in env:
+        v = env[c]
+        if isinstance(v, int):
+            return (v, [])
+        if isinstance(v, str):
+            return (1, [v])
+        return prod_form(v, env, leaf)
+    iv = int_value(n)
+    if iv is not None and n.get('kind') != 'DeclRefExpr':
+        return (iv, [])
+    k = n.get('kind')
+    if k in ('CStyleCastExpr', 'CXXStaticCastExpr', 'CXXFunctionalCastExpr', 'ImplicitCastExpr') and n.get('inner'):
+        return prod_form(n['inner'][0], env, leaf)
+    if k == 'ConditionalOperator':
+        cnd, a, b = n['inner'][:3]
+        if int_value(a) == 1 and int_value(b) == 0:
+            return prod_form(cnd, env, leaf)
+        cv = prod_form(cnd, env, leaf)
+        if not cv[1]:
+            return prod_form(a if cv[0] else b, env, leaf)
+        return (1, ['(%s ? %s : %s)' % (pf_str(cv), pf_str(prod_form(a, env, leaf)), pf_str(prod_form(b, env, leaf)))])
+    if k == 'BinaryOperator':
+        op = n.get('opcode')
+        a, b = prod_form(n['inner'][0], env, leaf), prod_form(n['inner'][1], env, leaf)
+        if op == '*':
+            return (a[0] * b[0], sorted(a[1] + b[1]))
+        if not a[1] and not b[1]:
+            try:
+                r = {'+': a[0] + b[0], '-': a[0] - b[0], '/': a[0] // b[0] if b[0] else None, '%': a[0] % b[0] if b[0] else None,
+                     '==': int(a[0] == b[0]), '!=': int(a[0] != b[0]), '<': int(a[0] < b[0]), '>': int(a[0] > b[0])}.get(op)
+            except ZeroDivisionError:
+                r = None
+            if r is not None:
+                return (r, [])
+        sa, sb = pf_str(a), pf_str(b)
+        if op in ('+',) and sb < sa:
+            sa, sb = sb, sa
+        return (1, ['(%s %s %s)' % (sa, op, sb)])
+    s = nf(n, leaf)
+    return (1, [s])
+
+
+def pf_str(pf):
+    c, fs = pf
+    if not fs:
+        return str(c)
+    if c == 1:
+        return ' * '.join(fs) if len(fs) == 1 else '(' + ' * '.join(fs) + ')'
+    return '(' + ' * '.join([str(c)] + fs) + ')'
